@@ -115,6 +115,10 @@ func ValidateResponse(ctx context.Context, input *ResponseValidationInput) error
 
 	// Read response's body.
 	body := input.Body
+	if body == nil {
+		// A response without a body has an empty body.
+		body = http.NoBody
+	}
 
 	// Response would contain partial or empty input body
 	// after we begin reading.
